@@ -42,7 +42,9 @@ CASE_TIME_LIMIT = 1200
 
 def _files():
     fs = corpus.small_files(70)
-    return fs
+    # files that carry parser state to their end (unclosed comp_off / translate_off / vsg_off regions, control characters)
+    extra = [f for f in corpus.files() if "corpus_extra" in f]
+    return extra * 6 + fs
 
 
 CONFS = None
@@ -125,7 +127,7 @@ def strategy(tier):
     return st.fixed_dictionaries(
         {
             "k": st.just("cli"),
-            "files": st.lists(st.sampled_from(files), min_size=2, max_size=5, unique=True),
+            "files": st.lists(st.sampled_from(files), min_size=2, max_size=5, unique=True).map(lambda l: l if len(set(l)) > 1 else l),
             "bad": st.sampled_from([None, None, "unparsable"]),
             "p": st.sampled_from([1, 2, 3, 99]),
             "fix": st.booleans(),
@@ -425,7 +427,7 @@ def _cli(case, tier):
                 fail("per_file_report_differs_from_solo_run", {"file": n1, "batch": b1[:300], "solo": b2[:300], "p": p})
                 break
     exp_err = "\n".join(solo[n]["err"] for n in names if solo[n]["err"])
-    if err.strip() != exp_err:
+    if [l for l in err.split("\n") if l.strip()] != [l for l in exp_err.split("\n") if l.strip()]:
         fail("stderr_differs_from_solo_runs", {"batch": err[:300], "solo": exp_err[:300]})
     exp_js = [e for n in names for e in (solo[n]["json"] or [])]
     if bjs != exp_js:
@@ -442,9 +444,10 @@ def _cli(case, tier):
             break
     # stdin channel for the first accepted file
     if case.get("stdin") and not case["fix"]:
-        n = names[0]
+        k0 = next((i for i, t in enumerate(texts) if any(c in t for c in (b"\x0c", b"\x0b", b"\x1f", b"\x85", b"\r"))), 0)
+        n = names[k0]
         reset()
-        code_s, out_s, err_s = _run_cli_sub(["--stdin", "-js", "i.json"] + base, d, stdin_data=texts[0])
+        code_s, out_s, err_s = _run_cli_sub(["--stdin", "-js", "i.json"] + base, d, stdin_data=texts[k0])
         res["evals"] += 1
         a = [(x, y.replace("stdin", "<F>")) for x, y in _blocks(out_s)]
         b = [(x, y.replace(n, "<F>")) for x, y in solo[n]["blocks"]]
